@@ -29,6 +29,13 @@ CLAIMS = {
         note="SC only (memory orders are compared, not proved necessary). Not yet modelled: spin_mutex, queuing_mutex, queuing_rw_mutex, mutex/rw_mutex waiting, RTM variants; "
              "upgrade-truthfulness and no-lost-hand-off are checked by the harness oracle (critical-section bookkeeping, round-robin completion), not yet theorems.",
         ref="4/C08"),
+    "C05": dict(
+        technique="Coq proof (induction on a logarithmic fuel bound) that the simple_partitioner chunk tree tiles the range with the documented size bounds, for unbounded sizes; differential correspondence with the real parallel_for; tiling oracle on all partitioners",
+        text="simple_chunks is proved for every begin<end and every grain (no size bound): termination, in-order contiguous tiling, non-empty chunks, non-divisible ranges never split, "
+             "chunk sizes in [ceil(g/2), g]. The model's leaves are compared exactly with the chunks the real parallel_for(simple_partitioner) hands to the body, incl. sizes > 2^32 and 2^63. "
+             "All other partitioners / 2d / 3d / for_each / invoke are exercised by real-thread runs with the exactly-once/tiling predicate.",
+        note="Partial: auto/static/affinity partitioner state machines, the float proportional split and the nd ranges are not yet modelled in Coq (oracle-only).",
+        ref="4/C05"),
 }
 
 REASONS_TODO = "check not built yet in this round; the design (DESIGN.md section 4) applies and it is planned — listed here only because no check is registered"
